@@ -6,6 +6,7 @@
   (id()-disjointness, str(msg) unchanged, re-use == fresh parse after every step of every history).
 -/
 import Mrm.Proofs.HeapP
+import Mrm.Proofs.HeapValueP
 
 namespace Mrm
 
@@ -41,6 +42,21 @@ theorem C13_history (ro : LX) (rest : List LX) (n : Nat) (ops : List Op) (w' : W
 theorem C13_two_ros (w : World) (hs : w.Sep) (i j : Nat) (hij : i ≠ j) (ti tj : LX)
     (hi : w.trees[i]? = some ti) (hj : w.trees[j]? = some tj) : ∀ l ∈ ti.labels, l ∉ tj.labels :=
   sep_disjoint w hs i j hij ti tj hi hj
+
+/-- C13 ⇒ value semantics: in a tree without repeated labels, mutating object `l` is, on the content,
+    exactly the plain-value edit at the path of `l` — what licenses modelling `parent.remove(node)`,
+    `insert`, move and swap on values in Model/Merge.lean -/
+theorem C13_erase_upd (l : Nat) (f : List LX → List LX) (g : List Xml → List Xml) (hn : Natural f g) (t : LX)
+    (hnd : t.labels.Nodup) (p : List Nat) (hp : pathOf l t = some p) :
+    (t.upd l f).erase = updV g p t.erase := erase_upd l f g hn t hnd p hp
+
+/-- on a separated world a removal through the running order changes the running order's content as
+    the value-level `eraseIdx` at the addressed node does, and no other tree's content at all -/
+theorem C13_value_model_sound (ro : LX) (rest : List LX) (n : Nat) (p i : Nat) (path : List Nat)
+    (hs : World.Sep ⟨ro :: rest, n⟩) (hp : pathOf p ro = some path) :
+    ((World.apply ⟨ro :: rest, n⟩ (.removeAt p i)).trees.map LX.erase) =
+      updV (fun ks => ks.eraseIdx i) path ro.erase :: rest.map LX.erase :=
+  value_model_sound ro rest n p i path hs hp
 
 /-- the hypothesis "inserted as copies" is necessary: by-reference insertion (the pinned code's
     behaviour, repaired by a fix: commit) lets a later edit of the running order change the message -/
